@@ -371,6 +371,10 @@ def t2_cases(tier, sizes=None, full_align=True):
     out = []
     for D in sorted(sizes or T2_SIZES):
         prods = T2_SIZES[D] if tier == 'thorough' else T2_SIZES[D][:1]
+        if tier != 'thorough' and D == 48:
+            # also the product whose physical memory ends with the data area
+            # (nothing behind it that a stray write could land in)
+            prods = prods + ('ul',)
         for product in prods:
             for rsv in RSV_CLASSES:
                 if rsv == 'beyond' and product == 'ul' and D == 48:
@@ -914,4 +918,92 @@ def check_format(case, prev, wipe):
                sim.damage[mark_d:], format_rules(case))
     f.obs.add('format=%r' % (res if not isinstance(res, Exception)
                              else type(res).__name__))
+    return f
+
+
+def check_format_write(case, prev, wipe, frac):
+    """A history on ONE tag object: read tag.ndef, format(), then assign a
+    message through tag.ndef again.  The write must respect the layout the
+    tag has *after* the format (for Type 1/2 computed from the tag memory by
+    the reference walker): nothing outside that NDEF area changes during the
+    write, and a fresh activation reads the message."""
+    import contextlib
+    import io
+    from mc.evidence import sig_exc
+    op = 'format-write'
+    f = Findings(case, dict(op=op, spec=list(case.spec), case=case.name,
+                            prev=prev, wipe=wipe, frac=frac))
+    sim = case.new_sim()
+    old = prev_message(case, prev)
+    if old:
+        case.preload(sim, old)
+    try:
+        clf, tag = case.activate(sim)
+        nd0 = tag.ndef                      # the object has seen the old layout
+        kw = {} if wipe is None else {'wipe': wipe}
+        if case.kind in ('T3', 'T3emu'):
+            kw['version'] = 0x10
+        with contextlib.redirect_stdout(io.StringIO()):
+            res = tag.format(**kw)
+    except Exception as e:
+        f.obs.add('format-exception:' + sig_exc(e))
+        return f                            # judged by the format cases
+    if res is not True:
+        f.obs.add('format=%r' % (res,))
+        return f
+    mid = sim.image()
+    if case.kind in ('T1', 'T2'):
+        lay = case.layout(mid['mem'])
+        if lay.error is not None:
+            f.obs.add('layout-after-format-not-readable:' + str(lay.error))
+            return f
+        area = {'mem': frozenset(lay.area)}
+    elif case.kind in ('T3', 'T3emu'):
+        # format() probes the number of blocks: the attribute block it wrote
+        # says what the data area is now
+        area = {'mem': frozenset(r3.area(mid['mem']))}
+    else:
+        area = case.area_map()
+    mark_w, mark_d = len(sim.writes), len(sim.damage)
+    try:
+        nd = tag.ndef
+        if nd is None:
+            f.obs.add('ndef-none-after-format')
+            return f
+        cap = nd.capacity
+        if case.kind == 'T4':
+            # (offsets from 8000h on are not addressable: recorded C01
+            # finding, not the subject here)
+            cap = min(cap, 0x7F00)
+        n = {'0': 0, '1': min(1, cap), 'half': cap // 2, 'cap': cap}[frac]
+        msg = content('count', n, 0x31)
+        nd.octets = msg
+    except Exception as e:
+        f.fail('C03', op, 0, sig_exc(e), exc=repr(e), stage='write')
+        return f
+    after = sim.image()
+    seen = set()
+    for k, v in mid.items():
+        ak = area.get(k, ())
+        for a in range(len(v)):
+            if a not in ak and v[a] != after[k][a] and 'x' not in seen:
+                seen.add('x')
+                f.fail('C03', op, n, 'changed-outside-area-after-format',
+                       detail=True, addr=[k, a], old=v[a], new=after[k][a],
+                       ndef_area_after_format=[min(ak), max(ak)] if ak
+                       else None)
+    for d in sim.damage[mark_d:]:
+        if not d.startswith('one-way'):
+            f.fail('C03', op, n, 'refused-by-tag', detail=True, damage=d)
+            break
+    try:
+        clf2, tag2 = case.activate(sim)
+        nd2 = tag2.ndef if tag2 is not None else None
+    except Exception as e:
+        f.fail('C03', op, n, 'read-back:' + sig_exc(e), exc=repr(e))
+        return f
+    if nd2 is None or bytes(nd2.octets) != msg:
+        f.fail('C03', op, n, 'read-back-mismatch', detail=True,
+               got=None if nd2 is None else bytes(nd2.octets[:48]))
+    f.obs.add('format-write:' + frac)
     return f
